@@ -37,7 +37,7 @@ def store_nontrivial(req, I):
     return I.get('edges', '.') != '.'
 
 
-STORE_MODEL_ALL = [r'res', r'nodes', r'edges', r'node', r'idx', r'byidx', r'hasnodes', r'ge', r'ges', r'efn', r'efns',
+STORE_MODEL_ALL = [r'agree\.wf', r'res', r'nodes', r'edges', r'node', r'idx', r'byidx', r'hasnodes', r'ge', r'ges', r'efn', r'efns',
                    r'ien', r'iens', r'oen', r'oens', r'nb', r'sn', r'pn', r'son', r'smap', r'pmap', r'bfs', r'ehw',
                    r'travs', r'travp', r'cnt', r'deg', r'indeg', r'outdeg', r'wdeg', r'windeg', r'woutdeg', r'degall',
                    r'indegall', r'outdegall', r'wdegall', r'windegall', r'woutdegall', r'dens:q', r'dc:q', r'mat',
@@ -58,7 +58,7 @@ PROPS = {
     'C01': dict(
         gens=[('store', 'general', 4000, 60000, 14)],
         spec_fields=[r'res', r'nodes', r'edges'],
-        model_fields=[r'res', r'nodes', r'edges', r'snap\..*', r'poison'],
+        model_fields=[r'res', r'nodes', r'edges', r'snap\..*', r'poison', r'agree\.wf'],
         nontrivial=store_nontrivial, hist=store_hist, rule=STORE_RULE, assumptions=COMMON_ASSUME,
     ),
     'C02': dict(
@@ -71,7 +71,7 @@ PROPS = {
     'C03': dict(
         gens=[('store', 'weights', 4000, 60000, 12)],
         spec_fields=[r'travs', r'travp', r'edges'],
-        model_fields=[r'travs', r'travp', r'edges', r'snap\.successors_vec', r'snap\.predecessors_vec', r'poison'],
+        model_fields=[r'travs', r'travp', r'edges', r'snap\.successors_vec', r'snap\.predecessors_vec', r'poison', r'agree\.wf'],
         nontrivial=store_nontrivial, hist=store_hist, rule=STORE_RULE + '; profile "weights": 55% repeated pairs, '
         'uniformly weighted (70%) or uniformly unweighted histories', assumptions=COMMON_ASSUME,
     ),
@@ -88,7 +88,7 @@ PROPS = {
     'C15': dict(
         gens=[('store', 'general', 3000, 40000, 12)],
         spec_fields=[r'sub\d+', r'rev', r'setw', r'single'],
-        model_fields=[r'sub\d+', r'rev', r'setw', r'single', r'edges', r'nodes'],
+        model_fields=[r'sub\d+', r'rev', r'setw', r'single', r'edges', r'nodes', r'agree\.wfderived'],
         impl_checks=[('srcsame', '1')],
         nontrivial=store_nontrivial, hist=store_hist, rule=STORE_RULE + '; derived graphs: get_subgraph for every subset '
         'of a 4-name universe (one absent), reverse, set_all_edge_weights(w), to_single_edges; each compared on nodes, '
